@@ -58,6 +58,10 @@ pub struct RcCase {
     /// unused (the reconnect callbacks exist only with the crate's `tracing` feature)
     #[serde(default)]
     pub listeners: bool,
+    /// poll-order choices of the simulator (also the source of its spurious polls: a request
+    /// future may be polled again although nothing woke it, as in a join! or select!)
+    #[serde(default)]
+    pub order: Vec<u8>,
     /// sequential requests; per request a script of (latency ms, outcome: 0 ok, 1 reconnectable, 2 other error)
     pub requests: Vec<Vec<(u64, u8)>>,
 }
@@ -88,9 +92,10 @@ fn case_strategy(_tier: Tier) -> BoxedStrategy<RcCase> {
             prop_oneof![1 => Just(vec![]), 2 => prop::collection::vec(prop_oneof![1 => Just(0u64), 2 => 0u64..=25], 3)],
             prop_oneof![2 => Just(0u8), 1 => 0u8..8, 1 => 128u8..136, 1 => 64u8..72],
             Just(false),
+            prop_oneof![1 => Just(vec![]), 1 => prop::collection::vec(any::<u8>(), 1..=12)],
         ),
     )
-        .prop_map(|(max_attempts, policy, retry_on_reconnect, predicate, mut requests, concurrent, step_ms, (starts, setter_order, listeners))| {
+        .prop_map(|(max_attempts, policy, retry_on_reconnect, predicate, mut requests, concurrent, step_ms, (starts, setter_order, listeners, order))| {
             if max_attempts.map_or(true, |m| m > 1_000) {
                 // unlimited (or practically unlimited) attempts: make every script end in a
                 // success so the case terminates
@@ -108,6 +113,7 @@ fn case_strategy(_tier: Tier) -> BoxedStrategy<RcCase> {
                 starts,
                 setter_order,
                 listeners,
+                order,
                 requests,
             }
         });
@@ -136,6 +142,7 @@ fn case_strategy(_tier: Tier) -> BoxedStrategy<RcCase> {
                 starts: vec![],
                 setter_order: 0,
                 listeners: false,
+                order: vec![],
                 requests: vec![script],
             }
         });
@@ -221,7 +228,7 @@ pub fn run_rc(case: &RcCase) -> Verdict {
 async fn interp(case: &RcCase) -> Verdict {
     let mut violations = vec![];
     let log = Log::new();
-    let mut sim = Sim::new(log.clone(), vec![]);
+    let mut sim = Sim::new(log.clone(), case.order.clone());
     let mut table: HashMap<u32, Vec<Step>> = HashMap::new();
     for (i, s) in case.requests.iter().enumerate() {
         table.insert(
